@@ -133,12 +133,91 @@ func (ex *Exec) sprintf(format Str, args []Value) Str {
 		r, ok := ex.renderArg(a, 0)
 		ex.cur = saved
 		if !ok {
+			if s, ok := ex.sprintfSymbolic(f, args); ok {
+				return s
+			}
 			return ex.opaqueStr("fmt:" + f)
 		}
 		native[i] = r
 	}
 	f = strings.ReplaceAll(f, "%w", "%v")
 	return mkStr(fmt.Sprintf(f, native...))
+}
+
+// sprintfSymbolic formats with symbolic operands where the result is still a plain concatenation: literal text,
+// %s / %v of strings, %x of strings, byte slices and byte arrays (two lower-case hex digits per byte), and any
+// verb of a concrete operand. Anything else: not handled (the caller falls back to an opaque string).
+func (ex *Exec) sprintfSymbolic(f string, args []Value) (Str, bool) {
+	out := mkStr("")
+	ai := 0
+	for i := 0; i < len(f); i++ {
+		if f[i] != '%' {
+			j := i
+			for j < len(f) && f[j] != '%' {
+				j++
+			}
+			out = ex.strConcat(out, mkStr(f[i:j]))
+			i = j - 1
+			continue
+		}
+		if i+1 >= len(f) {
+			return Str{}, false
+		}
+		verb := f[i+1]
+		i++
+		if verb == '%' {
+			out = ex.strConcat(out, mkStr("%"))
+			continue
+		}
+		if ai >= len(args) {
+			return Str{}, false
+		}
+		a := args[ai]
+		ai++
+		if r, ok := ex.renderArg(a, 0); ok {
+			out = ex.strConcat(out, mkStr(fmt.Sprintf("%"+string(verb), r)))
+			continue
+		}
+		if x, ok := a.(Iface); ok {
+			a = x.v
+		}
+		switch verb {
+		case 's', 'v':
+			s, ok := a.(Str)
+			if !ok {
+				return Str{}, false
+			}
+			out = ex.strConcat(out, s)
+		case 'x':
+			var bytes Str
+			switch x := a.(type) {
+			case Str:
+				bytes = x
+			case Slice:
+				bytes = ex.sliceAsStr(x)
+			case Array:
+				bytes = ex.sliceAsStr(Slice{a: []Value(x), n: ex.tc.BV(uint64(len(x)), 64)})
+			default:
+				return Str{}, false
+			}
+			n, b := ex.symParts(bytes)
+			if !n.IsConst() {
+				return Str{}, false
+			}
+			tc := ex.tc
+			digit := func(nib *Term) *Term {
+				return tc.Ite(tc.Ult(nib, tc.BV(10, 8)), tc.Add(nib, tc.BV('0', 8)), tc.Add(nib, tc.BV('a'-10, 8)))
+			}
+			var hex []*Term
+			for k := 0; k < int(n.val) && k < len(b); k++ {
+				hex = append(hex, digit(tc.LShr(b[k], tc.BV(4, 8))), digit(tc.BAnd(b[k], tc.BV(15, 8))))
+			}
+			out = ex.strConcat(out, ex.normStr(tc.BV(uint64(len(hex)), 64), hex, nil))
+		default:
+			return Str{}, false
+		}
+	}
+	return out, true
 }
 
 func init() {
